@@ -1,0 +1,46 @@
+//go:build verif
+
+package proxy
+
+// Verification export hooks for property C23 (merged command tree only shows usable proxy
+// commands) — /verif/harness/cmd/c23. Thin package-internal constructors/wrappers only.
+// Compiled only with `-tags verif`.
+
+import (
+	"net"
+
+	"go.minekube.com/brigodier"
+
+	"go.minekube.com/gate/pkg/command"
+	"go.minekube.com/gate/pkg/edition/java/netmc"
+	"go.minekube.com/gate/pkg/edition/java/profile"
+	"go.minekube.com/gate/pkg/edition/java/proto/packet"
+	"go.minekube.com/gate/pkg/edition/java/proto/state"
+	"go.minekube.com/gate/pkg/util/permission"
+)
+
+// VerifC23NewBackendPlayHandler returns the real backend play session handler
+// (newBackendPlaySessionHandler) of a real connectedPlayer on `client` whose active session handler
+// is the real client play handler, connected to a backend whose connection is `backend`.
+func VerifC23NewBackendPlayHandler(p *Proxy, client, backend netmc.MinecraftConn, prof *profile.GameProfile,
+	permFunc permission.Func) (netmc.SessionHandler, error) {
+	player := newConnectedPlayer(client, prof, nil, packet.LoginHandshakeIntent, true, nil, &sessionHandlerDeps{
+		proxy:          p,
+		registrar:      p,
+		configProvider: p,
+		eventMgr:       p.event,
+		authenticator:  p.authenticator,
+		loginsQuota:    p.loginsQuota,
+	})
+	player.permFunc = permFunc
+	sc := newServerConnection(newRegisteredServer(NewServerInfo("verif", &net.TCPAddr{IP: net.IPv4(127, 0, 0, 1), Port: 25566})), nil, player)
+	sc.connection = backend
+	player.setConnectedServer(sc)
+	client.SetActiveSessionHandler(state.Play, newClientPlaySessionHandler(player))
+	return newBackendPlaySessionHandler(sc)
+}
+
+// VerifC23FilterNode = filterNode.
+func VerifC23FilterNode(src brigodier.CommandNode, cmdSrc command.Source) brigodier.CommandNode {
+	return filterNode(src, cmdSrc)
+}
